@@ -101,6 +101,22 @@ def check(rep, tier):
                    "2D: one-step correspondence with the in-place sweep model model/Sn2D.v; cooling-stage max principle proved for that sweep, its hypotheses evaluated on every 2D run (counts inside/outside-stability 2D)"]
     recs = sr.catalogue(rng, tier, n0=3, n1=3 if tier == "quick" else 9, n2=1 if tier == "quick" else 5)
     recs += sr.catalogue(rng, tier, dims=("homogeneous", "spatial_1D"), cn=True, n0=1, n1=1)
+    # fixed corpus: concentrated solution (depression 1.35 K), tall strongly cooled vial, 1 K/min from 10 C: at nucleation one grid point lies
+    # between T_eq_l and T_m (liquid, not supercooled: it must stay free of ice)
+    try:
+        progW = dict(start=10, end=-50, rate=1.0 / 60, holds=[], t_tot=3600.0, dt=1.0)
+        exW = {"solution": {"solid_fraction": 0.2}}
+        SW = sr.make(dim="spatial_1D", conf="shelf", height=0.06, diameter=0.05, K=400, prog=progW, extra=exW)
+        dtW, _ = sr.step_info(SW); progW["t_tot"] = float(int(dtW * 9800))
+        SW = sr.make(dim="spatial_1D", conf="shelf", height=0.06, diameter=0.05, K=400, prog=progW, extra=exW)
+        recW = dict(label="spatial_1D/shelf h=0.06 K=400 20 % solute, 1 K/min from 10 C (a grid point between T_eq_l and T_m at nucleation)", dim="spatial_1D", conf="shelf", S=SW, dt=dtW, prog=progW,
+                    error=None, must_complete=True)
+        sr.run(SW)
+        TnW = np.asarray(SW.temp)[sr.split_run(SW, dtW)]
+        rep.coverage["grid_points_between_Teql_and_Tm_at_nucleation"] = int(((TnW >= SW.const["T_eq"] - SW.const["depression"]) & (TnW < SW.const["T_eq"])).sum())
+    except Exception as e:
+        recW["error"] = e
+    recs.append(recW)
     # 0D with a controlled-nucleation temperature close to the freezing point and a weak shelf contact: the product lags several K behind the shelf
     try:
         progC = dict(start=10, end=-50, rate=1.0 / 60, holds=[], t_tot=4 * 3600.0, dt=1.0)
